@@ -696,3 +696,105 @@ var reviewedTextTransforms = map[string]string{
 	"cli.parseReceiversFromCSV -> cipher.DecodeBase58Address":   "strings.TrimSpace($0[i][0])",
 	"cli.parseSendAmountsFromCSV -> cipher.DecodeBase58Address": "strings.TrimSpace($0[i][0])",
 }
+
+// shallowClones: clone methods (name "clone"/"Clone") of the given packages whose struct result shares a
+// slice, map or pointer field with the receiver: the field is either never assigned in a result that starts as
+// a copy of the receiver, or assigned the receiver's own field value.
+func shallowClones(p *Program, prefixes ...string) (n int, bad []string, pos []ssa.Instruction) {
+	isRef := func(t types.Type) bool {
+		switch t.Underlying().(type) {
+		case *types.Slice, *types.Map, *types.Pointer, *types.Chan:
+			return true
+		}
+		return false
+	}
+	for _, fn := range p.ModFns {
+		name := FnName(fn)
+		ok := false
+		for _, pre := range prefixes {
+			if strings.HasPrefix(name, pre) {
+				ok = true
+			}
+		}
+		if !ok || !strings.EqualFold(fn.Name(), "clone") || fn.Signature.Recv() == nil || len(fn.Params) == 0 {
+			continue
+		}
+		recv := fn.Params[0]
+		for _, b := range fn.Blocks {
+			ret, isRet := b.Instrs[len(b.Instrs)-1].(*ssa.Return)
+			if !isRet || len(ret.Results) != 1 {
+				continue
+			}
+			// the struct object whose value (or address) is returned
+			var obj *ssa.Alloc
+			switch x := ret.Results[0].(type) {
+			case *ssa.UnOp:
+				obj, _ = x.X.(*ssa.Alloc)
+			case *ssa.Alloc:
+				obj = x
+			}
+			if obj == nil || obj.Referrers() == nil {
+				continue
+			}
+			st := derefStruct(obj.Type())
+			if st == nil {
+				continue
+			}
+			n++
+			// does the object start as a copy of the receiver?
+			fromRecv := false
+			assigned := map[int]ssa.Value{}
+			for _, ref := range *obj.Referrers() {
+				switch x := ref.(type) {
+				case *ssa.Store:
+					if x.Addr == ssa.Value(obj) {
+						if x.Val == ssa.Value(recv) {
+							fromRecv = true
+						}
+						if u, ok := x.Val.(*ssa.UnOp); ok && u.X == ssa.Value(recv) {
+							fromRecv = true
+						}
+					}
+				case *ssa.FieldAddr:
+					if x.Referrers() != nil {
+						for _, r2 := range *x.Referrers() {
+							if s2, ok := r2.(*ssa.Store); ok && s2.Addr == ssa.Value(x) {
+								assigned[x.Field] = s2.Val
+							}
+						}
+					}
+				}
+			}
+			for i := 0; i < st.NumFields(); i++ {
+				if !isRef(st.Field(i).Type()) {
+					continue
+				}
+				v, has := assigned[i]
+				shared := false
+				if !has {
+					shared = fromRecv
+				} else {
+					// assigned the receiver's own field: recv.f or (*recv).f
+					switch y := v.(type) {
+					case *ssa.Field:
+						shared = y.X == ssa.Value(recv) && y.Field == i
+					case *ssa.UnOp:
+						if fa, ok := y.X.(*ssa.FieldAddr); ok {
+							if fa.X == ssa.Value(recv) && fa.Field == i {
+								shared = true
+							}
+							if al, ok := fa.X.(*ssa.Alloc); ok && al == obj && fromRecv {
+								shared = true
+							}
+						}
+					}
+				}
+				if shared {
+					bad = append(bad, fmt.Sprintf("%s: field %s of the clone shares the receiver's %s", name, st.Field(i).Name(), st.Field(i).Type().String()))
+					pos = append(pos, ret)
+				}
+			}
+		}
+	}
+	return
+}
